@@ -248,6 +248,50 @@ def request : P String := do
       match parseBdspec b dim with
       | some (a, s) => pure s!"{a} {s}"
       | none => pure "err-ValueError"
+  | "unitcube" => do
+      let dim ← nat; let S ← list pTr
+      pure (showFunc (unitCube dim S))
+  | "identity" => do
+      let ex ← list (pair pTr pTr)
+      pure (showFunc (identityGeo ex))
+  | "cylinderize" => do
+      let F ← pFunc; let z0 ← pTr; let z1 ← pTr
+      pure (showFunc (F.cylinderize z0 z1))
+  | "flipud" => do
+      let F ← pFunc
+      pure (showFunc F.flipud)
+  | "disk" => do
+      -- disk(r): gR = circular_arc(pi/2); gL = flipud(copy) . scale(-1); gB, gT = rotate_2d(-pi/2); assemble
+      let cs ← list (pair pTr pTr); let w ← pTr; let si ← pTr; let co ← pTr; let r ← pTr; let scaleR ← bool
+      let gR := circularArc cs w 1
+      let gL := (gR.copy.flipud).nurbsScale [-(1 : Tr)]
+      let gB := gR.nurbsApplyMatrix (rot2 si co)
+      let gT := gL.nurbsApplyMatrix (rot2 si co)
+      pure (showFunc (diskAssemble gB.c gT.c gL.c gR.c (Tr.ofRat (1/2)) r scaleR))
+  | "compgeval" => do
+      -- ComposedFunction.grid_eval: geo2's scattered route at the points XY = geo1.grid_eval (inputs)
+      let F2 ← pFunc; let T2 ← pTable; let shape ← list nat
+      let S2 := F2.toSpl
+      let n := prod shape
+      let out := (List.range n).flatMap (fun k =>
+        nodeVal F2 (composedVal S2 T2.B ((List.range S2.sdim).map (fun e => (e, k)))))
+      pure (showArr (shape ++ outShape F2) out)
+  | "compgjac" => do
+      -- ComposedFunction.grid_jacobian: matmul(geo2.pointwise_jacobian(XY), geo1.grid_jacobian(grd))
+      let F1 ← pFunc; let T1 ← pTable; let F2 ← pFunc; let T2 ← pTable
+      let S1 := F1.toSpl; let S2 := F2.toSpl
+      let lens := (List.range S1.sdim).map (fun i => ((T1.getD i []).getD i []).length)
+      let nodes := gridNodes lens
+      let jacM := fun (F : Func Tr) (val : Nat → Tr) (jac : Nat → List Tr) =>
+        let js := (List.range F.ncomp).map jac
+        if F.nurbs then nurbsJacobian ((List.range F.ncomp).map val) js else js
+      let out := (nodes.zip (List.range nodes.length)).flatMap (fun (g, k) =>
+        let ys := (List.range S1.sdim).map (fun i => (i, g.getD i 0))
+        let jac1 := jacM F1 (S1.gridVal T1.B ys) (S1.gridJacRow T1.B ys)
+        let pts := (List.range S2.sdim).map (fun e => (e, k))
+        let jac2 := jacM F2 (S2.pwVal T2.B pts) (S2.pwJacRow T2.B pts)
+        (composedJac jac2 jac1).flatten)
+      pure (showArr (lens ++ outShape F2 ++ [S1.sdim]) out)
   | "hesspairs" => do
       let n ← nat
       pure (showPairs (hessPairs n) ++ " ; " ++ showPairs (triu n))
